@@ -352,6 +352,18 @@ class ExcFlow:
                     "via": None, "amb": False, "slot": c.name}
                 out[(PSEUDO_OWN, site, ())] = {
                     "via": None, "amb": False, "slot": c.name}
+        # a call through a datatype slot always carries the slot's exceptions,
+        # whatever subset of converters the type inference happened to see
+        fname = call.func.attr if isinstance(call.func, ast.Attribute) else (
+            call.func.id if isinstance(call.func, ast.Name) else None)
+        if fname in DATATYPE_SLOTS and not any(
+                c.kind == "slot" or (c.kind == "repo" and c.how in (
+                    "cha", "byname", "basecall")) for c in callees):
+            site = self._loc(call) + " slot " + src(call.func)
+            out[("builtins.ValueError", site, ())] = {
+                "via": None, "amb": False, "slot": fname}
+            out[(PSEUDO_OWN, site, ())] = {
+                "via": None, "amb": False, "slot": fname}
         for cb in self.P.callback_targets(fi, call, callees):
             self._from_callee(out, (cb.qualname, cb.cls.qualname
                                     if cb.cls else None), call.lineno)
